@@ -545,10 +545,16 @@ func sameACL(a, b *protos.Acl) bool {
 // ---------------------------------------------------------------------------
 // enumeration
 
-func alphabet(full bool, initial string) []string {
+const (
+	alphaReduced = iota
+	alphaMedium
+	alphaFull
+)
+
+func alphabet(level int, initial string) []string {
 	var evs []string
 	switch {
-	case full:
+	case level == alphaFull:
 		for _, r := range []string{"Ra", "Rb", "Rc"} {
 			for _, s := range []string{"A", "B", "AB", "fA"} {
 				evs = append(evs, "set:"+r+":"+s)
@@ -560,6 +566,13 @@ func alphabet(full bool, initial string) []string {
 		for _, s := range []string{"A", "B", "AB", "fA"} {
 			evs = append(evs, "spend:"+s)
 		}
+	case level == alphaMedium:
+		for _, r := range []string{"Ra", "Rb", "Rc"} {
+			for _, s := range []string{"A", "B", "AB"} {
+				evs = append(evs, "set:"+r+":"+s)
+			}
+		}
+		evs = append(evs, "set:Ra:fA", "setm:A", "setm:B", "setm:AB", "spend:A", "spend:B")
 	case initial == "Ra":
 		// R1 = A alone: changes to / from "B alone", signed for R1 only or R2 only
 		evs = []string{"set:Ra:A", "set:Ra:B", "set:Rb:A", "set:Rb:B", "setm:A", "setm:B"}
@@ -622,27 +635,25 @@ func runPartB(rep *core.Report, tier core.Tier) {
 	// first counterexample kept per key is a shortest one
 	type family struct {
 		initial string
-		full    bool
+		level   int
 		n       int
 	}
 	var fams []family
-	// quick:    Ra full alphabet to length 3, reduced at 4; Rc full to 2, reduced at 3, 4
-	// thorough: Ra full alphabet to length 4, reduced at 5; Rc full to 3, reduced at 4, 5
-	fullDepth := map[string]int{"Ra": 3, "Rc": 2}
-	maxDepth := 4
+	// alphabet level per (initial rule, history length); shortest first so that
+	// the first counterexample kept per key is a shortest one
+	plan := map[string][]int{"Ra": {alphaFull, alphaFull, alphaFull, alphaReduced}, "Rc": {alphaFull, alphaFull, alphaReduced, alphaReduced}}
 	if tier == core.Thorough {
-		fullDepth = map[string]int{"Ra": 4, "Rc": 3}
-		maxDepth = 5
+		plan = map[string][]int{"Ra": {alphaFull, alphaFull, alphaFull, alphaMedium, alphaReduced}, "Rc": {alphaFull, alphaFull, alphaFull, alphaReduced, alphaReduced}}
 	}
-	for n := 1; n <= maxDepth; n++ {
+	for n := 1; n <= len(plan["Ra"]); n++ {
 		for _, ini := range []string{"Ra", "Rc"} {
-			fams = append(fams, family{ini, n <= fullDepth[ini], n})
+			fams = append(fams, family{ini, plan[ini][n-1], n})
 		}
 	}
 	var jobs []histJob
 	famDesc := []string{}
 	for _, f := range fams {
-		alpha := alphabet(f.full, f.initial)
+		alpha := alphabet(f.level, f.initial)
 		seqs := sequences(alpha, f.n)
 		famDesc = append(famDesc, fmt.Sprintf("initial=%s alphabet=%d length=%d histories=%d", f.initial, len(alpha), f.n, len(seqs)))
 		for _, s := range seqs {
